@@ -620,3 +620,57 @@ def tf1_store_trait_forwards(ctx, rep):
         rep.check(good and np_ > 0, R, "trait-method-forwards:%s" % name, ctx.where(b), "Store::%s = StoreImpl::%s, nothing else" % (name, name),
                   "Store::%s is not a plain forward to StoreImpl::%s (%s): trait-object users get different behaviour (e.g. a direct subscriber turned into a channeled one)" % (name, name, why))
     rep.floor(R, "Store trait methods with an inherent counterpart", n, 4)
+
+
+def pn1_no_panic_source_on_the_reducer_thread(ctx, rep):
+    """the library code that runs on the reducer thread around the user's callbacks - the loop,
+    the phase functions, the receive wrapper, the channel send wrappers and every method of the
+    metrics sink - contains no panic source of its own: no indexing / division / explicit
+    assertion or panic, no `unwrap` / `expect` of anything but a lock result.  (Counter `+= 1`
+    overflow checks are not counted.)  A gauge computed as `len * 100 / capacity`, a histogram
+    bucket indexed by a bit length, an `assert!` in the metrics sink all kill the thread that
+    every accepted action depends on - in a situation (capacity 0, a 512 ms reducer, a subscriber
+    buffer larger than the dispatch queue) no ordinary test meets."""
+    R = "PN1"
+    A = ctx.A
+    cl, _ = A.reducer_closure
+    bodies = dict(ctx.sync_reach([cl]))
+    extra = []
+    for b in ctx.prog.bodies:
+        if b.is_closure():
+            continue
+        tr = (b.j.get("impl_trait") or "").split("::")[-1].split("<")[0]
+        ia = b.j.get("impl_adt") or ""
+        if tr == A._mt() or ia in (A.receiver_adt["path"], A.sender_adt["path"]):
+            extra.append(b)
+    bodies.update(ctx.sync_reach(extra))
+    PANIC_PREFIX = ("core::panicking::", "std::rt::begin_panic", "std::rt::panic", "std::panicking::begin_panic", "core::option::expect_failed", "core::result::unwrap_failed", "core::slice::index::")
+    n = 0
+    bad = []
+    for pth, b in sorted(bodies.items()):
+        if "fmt::" in (b.j.get("impl_trait") or ""):
+            continue
+        n += 1
+        bp = ctx.prog.bp(b)
+        for bi in ctx.prog.cfg(b).nodes():
+            t = b.blocks[bi]["term"]
+            if t["k"] == "assert":
+                msg = t.get("msg", "")
+                if msg.startswith("Overflow(Add") or msg.startswith("MisalignedPointerDereference") or msg.startswith("NullPointerDereference"):
+                    continue
+                bad.append((b, bi, msg.split("(")[0].split(" ")[0]))
+        for s_ in ctx.prog.sites(b):
+            if b.blocks[s_.bb].get("cleanup"):
+                continue
+            if s_.ck.startswith(PANIC_PREFIX):
+                bad.append((b, s_.bb, s_.ck.split("::")[-1]))
+            elif s_.ck in ("std::option::Option::unwrap", "std::option::Option::expect", "std::result::Result::expect", "std::result::Result::unwrap") and s_.term["args"]:
+                a0 = bp.arg_term(s_.bb, 0)
+                if not any(st[0] in ("lockres", "trylockres") for st in subterms(a0)):
+                    bad.append((b, s_.bb, s_.ck.split("::")[-1] + " of " + term_str(a0)[:40]))
+    for b, bi, what in bad:
+        rep.note_fn(b.path)
+        rep.bad(R, "no-panic-source:%s:%s" % (short(b.path), what.split(" of ")[0]), ctx.where(b, bi), "%s in %s can panic on the reducer thread (or on a dispatching thread under the sender lock): %s" % (what, short(b.path), "every accepted action behind it is lost"))
+    if not bad:
+        rep.ok(R, "no-panic-source", "", "%d library bodies that run on the reducer thread / in the metrics sink / in the channel wrappers contain no panic source of their own" % n)
+    rep.floor(R, "bodies scanned for panic sources", n, 15)
